@@ -222,3 +222,11 @@ impl DevInputWriter {
   }
 }
 
+
+// Verification hooks (no behaviour change); compiled only with --cfg ellbur_totalmapper_verif
+#[cfg(ellbur_totalmapper_verif)]
+impl DevInputWriter {
+  pub fn verif_from_fd(fd: RawFd) -> DevInputWriter {
+    DevInputWriter { fd }
+  }
+}
